@@ -68,7 +68,7 @@ func snapCase(c *vlib.Ctx, i int, r *vlib.Rand) {
 	procs := []int{2, 4, 8, 16}[r.Intn(4)]
 	nkeys := []int{200, 500, 1000, 3000}[r.Intn(4)]
 	batch := []int{0, 8, 40}[r.Intn(3)]
-	gens := r.Range(c.N(12, 30), c.N(24, 60))
+	gens := r.Range(c.N(12, 20), c.N(24, 40))
 	if c.Flavour == "race" {
 		gens = r.Range(8, 16)
 	}
